@@ -9,6 +9,7 @@
 #include <unistd.h>
 #include <fcntl.h>
 #include <errno.h>
+#include <sys/syscall.h>
 
 SimConfig sim_cfg;
 uint64_t sim_fault_count[F_KINDS];
@@ -92,7 +93,10 @@ void sim_hist_open(const char *path) {
 void sim_hist_flush(void) {
     size_t off = 0;
     while (off < hist_len && hist_fd >= 0) {
-        ssize_t w = __real_write(hist_fd, hist_buf + off, hist_len - off);
+        /* raw system call: the sanitizers intercept libc's write() even from this uninstrumented
+         * object and would see the buffer as shared state without synchronisation (the baton is
+         * invisible to them by design) */
+        ssize_t w = syscall(SYS_write, hist_fd, hist_buf + off, hist_len - off);
         if (w < 0) {
             if (errno == EINTR) continue;
             break;
@@ -115,7 +119,9 @@ static void hist_append(const char *s, size_t n) {
             hist_buf = realloc(hist_buf, hist_cap);
         }
     }
-    memcpy(hist_buf + hist_len, s, n);
+    /* hand-rolled copy for the same reason (memcpy is intercepted) */
+    volatile char *dst = hist_buf + hist_len;
+    for (size_t i = 0; i < n; i++) dst[i] = s[i];
     hist_len += n;
 }
 
